@@ -85,6 +85,25 @@ inline std::string &carry_path()
   return p;
 }
 
+// crash classes: how often a case of this signature context killed this shard.  After
+// MAX_CRASHES_PER_CLASS deaths the shard stops executing further cases of the class (they are counted
+// in skipped_same_crash_class and the run is reported as not exhaustive): a defect that aborts in
+// thousands of histories must not cost thousands of process restarts.
+enum
+{
+  MAX_CRASHES_PER_CLASS = 3
+};
+inline std::map<std::string, int> &crash_counts()
+{
+  static std::map<std::string, int> m;
+  return m;
+}
+inline std::string &current_sigctx()
+{
+  static std::string s;
+  return s;
+}
+
 // everything found so far -> carry file (called from the sanitizer death callback / SIGABRT)
 inline void dump_carry()
 {
@@ -106,6 +125,10 @@ inline void dump_carry()
     fprintf(f, "N\t%s\n", x.c_str());
   for (auto &x : s.capped)
     fprintf(f, "C\t%s\n", x.c_str());
+  for (auto &kv : crash_counts())
+    fprintf(f, "X\t%d\t%s\n", kv.second + (kv.first == current_sigctx() ? 1 : 0), kv.first.c_str());
+  if (!current_sigctx().empty() && !crash_counts().count(current_sigctx()))
+    fprintf(f, "X\t1\t%s\n", current_sigctx().c_str());
   fclose(f);
 }
 
@@ -151,6 +174,8 @@ inline void load_carry()
       vr::note(p[1]);
     else if (p[0] == "C")
       vr::capped(p[1]);
+    else if (p[0] == "X" && p.size() >= 3)
+      crash_counts()[p[2]] = atoi(p[1].c_str());
   }
 }
 
@@ -213,18 +238,27 @@ enum
   H_VIOL = 2
 };
 
+typedef std::function<int(const std::vector<int> &, const std::string &)> RunFn;  // replays the history, checks after the last op
+typedef std::function<std::string(const std::vector<int> &)> SigFn;                // crash signature context (class of the last op)
+
 struct Explorer
 {
   Tree tree;
-  int shard, nshards;
-  long long resume;
-  std::string tag;                                                   // replay prefix, e.g. "owned/i32"
-  std::function<int(const std::vector<int> &, const std::string &)> run;  // replays the history, checks after the last op
-  std::function<std::string(const std::vector<int> &)> sigctx;       // crash signature context (class of the last op)
+  int shard = 0, nshards = 1;
+  long long resume = -1;
+  std::string tag;  // replay prefix, e.g. "owned/i32"
+  RunFn run;
+  SigFn sigctx;
+  // phase "top": only levels 0..1, every result appended to top_file.
+  // phase "deep": levels 0..1 are not executed, their results come from top_status.
+  bool top_phase = false;
+  std::string top_file;
+  int root_status = H_VIOL;
+  std::vector<int> top_status;
   bool stop = false;
   long long polled = 0;
 
-  Explorer(int A, int D) : tree(A, D), shard(0), nshards(1), resume(-1) {}
+  Explorer(int A, int D) : tree(A, D) {}
 
   std::string replay_of(const std::vector<int> &h) const
   {
@@ -237,11 +271,44 @@ struct Explorer
     return r;
   }
 
-  bool mine(const std::vector<int> &h) const
+  void record_top(const std::vector<int> &h, int status)
   {
-    if (h.size() < 2)
-      return shard == 0;
-    return (h[0] * tree.A + h[1]) % nshards == shard;
+    FILE *f = fopen(top_file.c_str(), "a");
+    if (!f)
+      return;
+    fprintf(f, "%d %d\n", h.empty() ? -1 : h[0], status);
+    fclose(f);
+  }
+
+  int execute(const std::vector<int> &h, long long idx)
+  {
+    std::string rp = replay_of(h);
+    std::string sc = sigctx(h);
+    auto it = crash_counts().find(sc);
+    if (it != crash_counts().end() && it->second >= MAX_CRASHES_PER_CLASS) {
+      vr::stat("skipped_same_crash_class");
+      return H_VIOL;
+    }
+    current_sigctx() = sc;
+    vr::begin_case(idx, sc, rp);
+    if ((++polled & 1023) == 0 && vr::deadline_passed()) {
+      stop = true;
+      if (shard == 0)
+        vr::capped("deadline reached inside " + tag + " before the history tree was exhausted");
+      return H_VIOL;
+    }
+    int r = H_VIOL;
+    try {
+      r = run(h, rp);
+    } catch (const std::exception &e) {
+      viol(sc + "|unexpected exception escaped", rp, e.what());
+    } catch (...) {
+      viol(sc + "|unexpected exception escaped", rp, "non-std exception");
+    }
+    current_sigctx().clear();
+    if (r == H_VIOL)
+      vr::stat("histories_not_extended_after_violation");
+    return r;
   }
 
   void dfs(std::vector<int> &h, long long idx)
@@ -249,44 +316,26 @@ struct Explorer
     if (stop)
       return;
     const int level = (int)h.size();
-    if (idx + tree.S[level] - 1 <= resume && idx != resume)
-      return;  // finished before the crash
+    if (idx + tree.S[level] - 1 <= resume)
+      return;  // finished before the crash (or the crashed history itself, which is not extended)
     if (idx == resume)
-      return;  // the crashed history: not extended
-    if (idx > resume) {
-      const bool own = mine(h);
-      std::string rp = replay_of(h);
-      if (own) {
-        vr::begin_case(idx, sigctx(h), rp);
-        if ((++polled & 1023) == 0 && vr::deadline_passed()) {
-          stop = true;
-          if (shard == 0)
-            vr::capped("deadline reached inside " + tag + " before the history tree was exhausted");
-          return;
-        }
-      }
-      quiet() = !own;
-      int r = H_VIOL;
-      try {
-        r = run(h, rp);
-      } catch (const std::exception &e) {
-        viol(sigctx(h) + "|unexpected exception escaped", rp, e.what());
-        r = H_VIOL;
-      } catch (...) {
-        viol(sigctx(h) + "|unexpected exception escaped", rp, "non-std exception");
-        r = H_VIOL;
-      }
-      quiet() = false;
-      if (r != H_OK) {
-        if (own && r == H_VIOL)
-          vr::stat("histories_not_extended_after_violation");
+      return;
+    if (!top_phase && level < 2 && tree.D >= 2) {
+      // executed in the top phase
+      int st = level == 0 ? root_status : top_status[h[0]];
+      if (st != H_OK)
         return;
-      }
+    } else if (idx > resume) {
+      int r = execute(h, idx);
+      if (top_phase)
+        record_top(h, r);
+      if (r != H_OK)
+        return;
     }
     if (level == tree.D)
       return;
     for (int c = 0; c < tree.A; c++) {
-      if (level == 1 && (h[0] * tree.A + c) % nshards != shard)
+      if (level == 1 && !top_phase && (h[0] * tree.A + c) % nshards != shard)
         continue;
       h.push_back(c);
       dfs(h, idx + 1 + c * tree.S[level + 1]);
@@ -303,6 +352,58 @@ struct Explorer
     dfs(h, 0);
   }
 };
+
+// Explore the whole tree of histories of length <= D over A operations with forked shards.
+// Phase 1 (one shard): the empty history and the single-operation histories; their results are
+// written to a file.  Phase 2 (nshards shards): shard k owns the subtrees below the two-operation
+// prefixes (a,b) with (a*A+b) % nshards == k.
+inline void explore_tree(const std::string &tag, int A, int D, int nshards, const RunFn &run, const SigFn &sigctx)
+{
+  std::string file_tag = tag;
+  for (auto &c : file_tag)
+    if (c == '/')
+      c = '_';
+  const std::string top_file = scratch_dir() + "/" + file_tag + ".top";
+  unlink(top_file.c_str());
+  const long long skipped_before = vr::S().stats.count("skipped_same_crash_class") ? vr::S().stats["skipped_same_crash_class"] : 0;
+  vr::run_sharded(1, [&](int shard, long long resume_after) {
+    shard_begin(file_tag + "-top", shard, resume_after);
+    Explorer ex(A, D < 1 ? D : 1);
+    ex.tag = tag;
+    ex.run = run;
+    ex.sigctx = sigctx;
+    ex.top_phase = true;
+    ex.top_file = top_file;
+    ex.go(0, 1, resume_after);
+  });
+  if (D < 2 || vr::replaying())
+    return;
+  int root_status = H_VIOL;
+  std::vector<int> top_status(A, H_VIOL);  // no record = the case died
+  if (FILE *f = fopen(top_file.c_str(), "r")) {
+    int a, st;
+    while (fscanf(f, "%d %d", &a, &st) == 2) {
+      if (a < 0)
+        root_status = st;
+      else if (a < A)
+        top_status[a] = st;
+    }
+    fclose(f);
+  }
+  vr::run_sharded(nshards, [&](int shard, long long resume_after) {
+    shard_begin(file_tag, shard, resume_after);
+    Explorer ex(A, D);
+    ex.tag = tag;
+    ex.run = run;
+    ex.sigctx = sigctx;
+    ex.root_status = root_status;
+    ex.top_status = top_status;
+    ex.go(shard, nshards, resume_after);
+  });
+  long long skipped = (vr::S().stats.count("skipped_same_crash_class") ? vr::S().stats["skipped_same_crash_class"] : 0) - skipped_before;
+  if (skipped > 0)
+    vr::capped(tag + ": " + std::to_string(skipped) + " cases were not executed because " + std::to_string((int)MAX_CRASHES_PER_CLASS) + " cases of the same signature class had already killed their shard");
+}
 
 inline std::vector<int> parse_ops(const std::string &s)
 {
